@@ -23,6 +23,9 @@ PROP = {  # commit subject fragment -> (property, id)
  "loses the decoded-string race releases": ("C18", "F24"),
  "BitMask::clear_high_bits(LEN)": ("C17", "F25"),
  "map keys accept leading whitespace": ("C04", "F26"),
+ "pointer_mut with an empty path": ("C15", "F8"),
+ "Entry::key of an occupied entry": ("C15", "F7"),
+ "IntoIter::as_slice panics": ("C15", "F9"),
 }
 KNOWN = []
 out = []
